@@ -141,11 +141,84 @@ func equalityProgram(rt *rapid.T, h *harness.H) *caseC07 {
 	p := &ast.Program{Decls: decls}
 	n := d.Int(1, 4, "nfuns")
 	names := env.Order
+	// definitions that were unrolled into themselves: U = F(F(U)), so the subterm F(U) equals U
+	var selfUnrolled []string
+	for _, l := range log {
+		var x, y string
+		if _, err := fmt.Sscanf(l, "unrolled %s in %s", &x, &y); err == nil && x == y {
+			if _, ok := env.Defs[x]; ok {
+				selfUnrolled = append(selfUnrolled, x)
+			}
+		}
+	}
 	for i := 0; i < n; i++ {
 		a := names[d.Pick(len(names), "a")]
 		b := names[d.Pick(len(names), "b")]
-		ta := func() *ast.Ty { return ast.NameTy(env.Defs[a].Mode, a) }
-		tb := func() *ast.Ty { return ast.NameTy(env.Defs[b].Mode, b) }
+		outOfPhase := false
+		if len(selfUnrolled) > 0 && d.Likely(40, "outofphase") {
+			a = selfUnrolled[d.Pick(len(selfUnrolled), "unrolled")]
+			outOfPhase = true
+		}
+		if outOfPhase || d.Likely(50, "related") {
+			// the same definition, or the clone it was rewritten into / from
+			b = a
+			partner := ""
+			if strings.HasPrefix(a, "T") {
+				partner = "U" + a[1:]
+			} else if strings.HasPrefix(a, "U") {
+				partner = "T" + a[1:]
+			}
+			if _, ok := env.Defs[partner]; ok && d.Bool("partner") {
+				b = partner
+			}
+		}
+		// either the name or its definition written out (one unfolding): a structural type then meets
+		// a name, and the recursion points of the two sides are out of phase
+		spell := func(n string) *ast.Ty {
+			if !(outOfPhase && n == a) && d.Likely(60, "byname") {
+				return ast.NameTy(env.Defs[n].Mode, n)
+			}
+			t := env.Defs[n].Ty.Clone()
+			if outOfPhase && n == a || d.Likely(45, "subterm") {
+				// a proper structural subterm that mentions a name: for an unrolled definition
+				// U = F(F(U)) the subterm F(U) equals U, one step out of phase
+				var subs []*ast.Ty
+				t.Walk(func(x *ast.Ty) {
+					if x == t || x.K == ast.KName || x.K == ast.KOne {
+						return
+					}
+					has := false
+					x.Walk(func(y *ast.Ty) {
+						if y.K == ast.KName {
+							has = true
+						}
+					})
+					if has {
+						subs = append(subs, x)
+					}
+				})
+				if len(subs) > 0 {
+					t = subs[d.Pick(len(subs), "which")].Clone()
+					if !t.IsShift() {
+						t.Ann = t.M.String()
+					}
+					return t
+				}
+			}
+			if !t.IsShift() {
+				t.Ann = env.Defs[n].Mode.String()
+			}
+			return t
+		}
+		sa := spell(a)
+		var sb *ast.Ty
+		if outOfPhase {
+			sb = ast.NameTy(env.Defs[b].Mode, b)
+		} else {
+			sb = spell(b)
+		}
+		ta := func() *ast.Ty { return sa.Clone() }
+		tb := func() *ast.Ty { return sb.Clone() }
 		switch d.Pick(3, "shape") {
 		case 0: // let eq(x : A) : B = fwd self x
 			p.Decls = append(p.Decls, &ast.Decl{Kind: ast.DFun, Name: fmt.Sprintf("eq%d", i), Ty: tb(), Params: []ast.Param{{Name: "x", Ty: ta()}},
